@@ -21,6 +21,11 @@ func hostileLabels(c *runCtx) []string {
 	for b := 1; b < 256; b++ {
 		out = append(out, string([]byte{byte(b)}))
 	}
+	// long labels of every kind the formatter treats differently (token, quoted, percent-encoded), around the lengths
+	// where a cap on the formatted text would bite
+	for _, n := range []int{60, 100, 200, 228, 230, 231, 232, 233, 236, 240, 250, 254, 255, 256, 300, 512, 1000, 2900} {
+		out = append(out, strings.Repeat("a", n), "x y"+strings.Repeat("a", n), "x;y"+strings.Repeat("b", n), "q\\"+strings.Repeat("c", n), strings.Repeat("é", n/2), strings.Repeat("a b", n/3))
+	}
 	n := 400
 	if c.tier == "thorough" {
 		n = 20000
